@@ -46,6 +46,7 @@ type vc8Field struct {
 	vals     map[string]int64                      // int: col -> value
 	rowAttrs map[string]map[string]interface{}
 	rowPool  []string
+	remote   map[uint64]bool // remote available shards announced to / removed from the field (shards >= 7, never holding data)
 }
 
 type vc8Index struct {
@@ -60,6 +61,11 @@ type vc8Index struct {
 	touched  map[uint64]bool // shards ever written (upper bound of available shards)
 	colPool  []string
 	colIDs   map[string]uint64 // keyed: ids observed through TranslateKeys
+	// shards ever announced as remote to a field of this index; once a Store() ran while
+	// there were any, it has created local fragments in them (Store runs on every
+	// available shard of the index), so they are no longer purely remote
+	everRemote       map[uint64]bool
+	storeSinceRemote bool
 }
 
 func vc8set(m map[string]map[string]bool, r, c string) {
@@ -112,6 +118,7 @@ var vc8IntBounds = [][2]int64{{0, 0}, {-10, 10}, {5, 100}, {-100, -5}, {0, 1 << 
 var vc8Quanta = []string{"Y", "YM", "YMD", "YMDH", "M", "MD", "MDH", "D", "DH", "H"}
 var vc8ColIDs = []uint64{0, 1, 65535, 65536, vc8SW - 1, vc8SW, vc8SW + 1, 2*vc8SW - 1, 3*vc8SW + 5}
 var vc8RowIDs = []uint64{0, 1, 2, 3, 7, 100, 1000}
+var vc8RemoteShards = []uint64{7, 8, 9, 12}
 var vc8ColKeysAll = []string{"a", "b", "c", "k1", "x-y", "col_9", "Zed", "ünï", "käse,1", "sp ace"}
 var vc8RowKeys = []string{"r1", "r2", "alpha", "B", "row-5", "z_9", "zeile ü"}
 var vc8Times = []time.Time{
@@ -373,6 +380,8 @@ func (c *vc8Case) createIndex(idx *vc8Index) {
 	idx.exist = map[string]bool{}
 	idx.colAttrs = map[string]map[string]interface{}{}
 	idx.touched = map[uint64]bool{}
+	idx.everRemote = map[uint64]bool{}
+	idx.storeSinceRemote = false
 	c.logf("CreateIndex(%s keys=%v track=%v)", idx.Name, idx.Keys, idx.Track)
 }
 
@@ -409,7 +418,7 @@ func (c *vc8Case) step(i int) {
 	idx := c.idxs[rapid.IntRange(0, len(c.idxs)-1).Draw(t, "idx")]
 	op := rapid.SampledFrom([]string{
 		"createField", "set", "set", "set", "set", "clear", "clearRow", "store", "store", "import", "import",
-		"importClear", "importValue", "importValue", "importRoaring", "importRoaring", "rowAttrs", "colAttrs", "attrsEmpty", "attrsEmpty", "bulkValueRetry", "bulkValueRetry", "bulkImportRetry", "snapWriteReopen", "snapWriteReopen", "deleteField", "recreateField",
+		"importClear", "importValue", "importValue", "importRoaring", "importRoaring", "rowAttrs", "colAttrs", "attrsEmpty", "attrsEmpty", "bulkValueRetry", "bulkValueRetry", "bulkImportRetry", "snapWriteReopen", "snapWriteReopen", "remoteShardAdd", "remoteShardAdd", "remoteShardRemove", "remoteShardRemove", "deleteField", "recreateField",
 		"recreateIndex", "reopen", "reopen",
 	}).Draw(t, "op")
 	bitFields := c.fieldsOf(idx, func(f *vc8Field) bool { return f.Typ != "int" })
@@ -527,6 +536,9 @@ func (c *vc8Case) step(i int) {
 		drow := rapid.SampledFrom(dst.rowPool).Draw(t, "drow")
 		q := fmt.Sprintf("Store(Row(%s=%s), %s=%s)", src.Name, vc8rowLit(src, srow), dst.Name, vc8rowLit(dst, drow))
 		c.query(idx, q)
+		if len(idx.everRemote) > 0 {
+			idx.storeSinceRemote = true
+		}
 		cp := map[string]bool{}
 		for k, v := range src.bits[srow] {
 			if v {
@@ -902,6 +914,9 @@ func (c *vc8Case) step(i int) {
 			}
 			q := fmt.Sprintf("Store(Row(%s=%s), %s=%s)", src.Name, vc8rowLit(src, srow), f.Name, row)
 			c.query(idx, q)
+			if len(idx.everRemote) > 0 {
+				idx.storeSinceRemote = true
+			}
 			cp := map[string]bool{}
 			for k, v := range src.bits[srow] {
 				if v {
@@ -940,6 +955,52 @@ func (c *vc8Case) step(i int) {
 		c.cls["restart-right-after-snapshotting-write"] = true
 		c.nt = true
 		c.reopen()
+	case "remoteShardAdd":
+		// what a node receives when another node creates a shard: CreateShardMessage -> Field.AddRemoteAvailableShards
+		if len(idx.order) == 0 {
+			return
+		}
+		f := idx.fields[rapid.SampledFrom(idx.order).Draw(t, "f")]
+		for k, m := 0, rapid.IntRange(1, 3).Draw(t, "nremote"); k < m; k++ {
+			sh := rapid.SampledFrom(vc8RemoteShards).Draw(t, "rshard")
+			body, err := pilosa.MarshalInternalMessage(&pilosa.CreateShardMessage{Index: idx.Name, Field: f.Name, Shard: sh}, proto.Serializer{})
+			if err != nil {
+				c.fatalf("marshal CreateShardMessage: %v", err)
+			}
+			if err := c.cmd.API.ClusterMessage(context.Background(), bytes.NewReader(body)); err != nil {
+				c.fatalf("ClusterMessage(CreateShard %s/%s/%d): %v", idx.Name, f.Name, sh, err)
+			}
+			if f.remote == nil {
+				f.remote = map[uint64]bool{}
+			}
+			f.remote[sh] = true
+			idx.everRemote[sh] = true
+			c.logf("ClusterMessage(CreateShardMessage %s/%s shard=%d)", idx.Name, f.Name, sh)
+		}
+		c.cls["remote-shards-added"] = true
+	case "remoteShardRemove":
+		fs := c.fieldsOf(idx, func(f *vc8Field) bool { return len(f.remote) > 0 })
+		if len(fs) == 0 {
+			return
+		}
+		f := fs[rapid.IntRange(0, len(fs)-1).Draw(t, "f")]
+		var have []uint64
+		for sh := range f.remote {
+			have = append(have, sh)
+		}
+		sort.Slice(have, func(i, j int) bool { return have[i] < have[j] })
+		sh := rapid.SampledFrom(have).Draw(t, "rshard")
+		if err := c.cmd.API.DeleteAvailableShard(context.Background(), idx.Name, f.Name, sh); err != nil {
+			c.fatalf("DeleteAvailableShard(%s/%s/%d): %v", idx.Name, f.Name, sh, err)
+		}
+		delete(f.remote, sh)
+		c.logf("DeleteAvailableShard(%s/%s shard=%d)", idx.Name, f.Name, sh)
+		c.cls["remote-shard-removed"] = true
+		if rapid.IntRange(0, 2).Draw(t, "thenReopen") != 0 {
+			c.cls["restart-right-after-remote-shard-removal"] = true
+			c.nt = true
+			c.reopen()
+		}
 	case "attrsEmpty":
 		// delete every attribute of one row or column with nulls, so that the id is left
 		// without attributes (set one first when the model has none to delete)
@@ -1181,8 +1242,8 @@ func (c *vc8Case) battery() []vc8Probe {
 			have := map[uint64]bool{}
 			for _, s := range sl {
 				have[s] = true
-				if !idx.touched[s] {
-					c.fatalf("AvailableShardsByIndex(%s) = %v contains shard %d that no write touched", idx.Name, sl, s)
+				if !idx.touched[s] && !idx.everRemote[s] {
+					c.fatalf("AvailableShardsByIndex(%s) = %v contains shard %d that no write touched and no field lists as remote", idx.Name, sl, s)
 				}
 			}
 			for _, s := range c.liveShards(idx) {
@@ -1193,6 +1254,40 @@ func (c *vc8Case) battery() []vc8Probe {
 		}
 		for _, fn := range idx.order {
 			ps = append(ps, c.fieldBattery(idx, idx.fields[fn])...)
+			// per-field available shards; the shards >= 7 are exactly the remote ones of the model
+			fld, err := c.cmd.API.Field(context.Background(), idx.Name, fn)
+			if err != nil {
+				c.fatalf("Field(%s/%s): %v", idx.Name, fn, err)
+			}
+			all := fld.AvailableShards().Slice()
+			var gotR, wantR []uint64
+			for _, sh := range all {
+				if sh >= 7 {
+					gotR = append(gotR, sh)
+				}
+			}
+			for sh, v := range idx.fields[fn].remote {
+				if v {
+					wantR = append(wantR, sh)
+				}
+			}
+			sort.Slice(wantR, func(i, j int) bool { return wantR[i] < wantR[j] })
+			ps = append(ps, vc8Probe{desc: fmt.Sprintf("AvailableShards(%s/%s)", idx.Name, fn), got: fmt.Sprint(all)})
+			pr := vc8Probe{desc: fmt.Sprintf("remote AvailableShards(%s/%s)", idx.Name, fn), got: "remote=" + fmt.Sprint(gotR), want: "remote=" + fmt.Sprint(wantR)}
+			if idx.storeSinceRemote {
+				// only the lower bound is defined: every remote shard of the model is listed
+				pr.want = ""
+				have := map[uint64]bool{}
+				for _, sh := range gotR {
+					have[sh] = true
+				}
+				for _, sh := range wantR {
+					if !have[sh] {
+						c.fatalf("AvailableShards(%s/%s) = %v lacks remote shard %d", idx.Name, fn, all, sh)
+					}
+				}
+			}
+			ps = append(ps, pr)
 		}
 		// key translation, forward direction
 		if idx.Keys {
@@ -1223,6 +1318,15 @@ func (c *vc8Case) battery() []vc8Probe {
 		}
 	}
 	return ps
+}
+
+func (c *vc8Case) remoteShard(idx *vc8Index, s uint64) bool {
+	for _, f := range idx.fields {
+		if f.remote[s] {
+			return true
+		}
+	}
+	return false
 }
 
 func (c *vc8Case) colUsed(idx *vc8Index, k string) bool {
